@@ -29,7 +29,8 @@ def run(ck):
     funcs.sizing_record(ck, "C07.R2")
     funcs.results_through_funnel(ck, "C07.R4")
     ops.operator_siblings(ck, "C08.R4", only=("__truediv__", "__rtruediv__", "__floordiv__", "__rfloordiv__", "__mod__", "__rmod__"))
-    sizes.resize_rules(ck, {"nint": "C02.R3"})        # optimal sizes of the division family read x.n_int
+    sizes.resize_rules(ck, {"nint": "C02.R3"})
+    sizes.init_size_relation(ck, "C06.R1")             # results are built from (signed, n_int, n_frac): the word follows from them with the signedness in force        # optimal sizes of the division family read x.n_int
     routes.numpy_dispatch_transparent(ck, "C15.R5")  # np.floor_divide / np.mod / np.divide hand their operands over unconverted
     carriers.machine_carrier(ck, "C18.R5")            # kernels pre-scale x.val * 2^k in the operand's carrier: it must be the 64-bit one
     funcs.template_sizes(ck, "C08.R3")
